@@ -5,3 +5,4 @@ import Gen.Arith
 import Gen.Dict
 import Gen.Struct
 import Gen.Names
+import Gen.Pools
